@@ -16,9 +16,12 @@ EXTENDS Naturals, Sequences, TLC, TLCExt, Json, IOUtils
 CONSTANTS InitSt, Expect(_, _)
 VARIABLES l, st, bad
 
-TraceLog == ndJsonDeserialize(IOEnv.VERIF_TRACE)
+\* The log is parsed once, in Init, and parked in TLC register 2 (a definition would be
+\* re-evaluated - i.e. the file re-parsed - at every reference: measured 20 ms per event).
+TraceLog == TLCGet(2)
 
-Init == l = 1 /\ st = InitSt /\ bad = <<>>
+Init == /\ TLCSet(2, ndJsonDeserialize(IOEnv.VERIF_TRACE))
+        /\ l = 1 /\ st = InitSt /\ bad = <<>>
 
 Step == /\ l <= Len(TraceLog)
         /\ LET ev == TraceLog[l]
